@@ -1705,6 +1705,17 @@ def disp12(ctx) -> List[Ob]:
     ebi = io["extract_block_info"]
     copies = [st for st in A.walk_no_nested(ebi.node) if isinstance(st, (ast.Assign, ast.AnnAssign)) and st.value is not None and _is_copy(st.value)]
     out.append(ok("DISP-12", ebi.qualname, "entries are copied before use", ctx.where(ebi, copies[0]) if copies else ctx.where(ebi), f"{len(copies)} copying definition(s); {n_ob} uncopied alias(es) examined", nontrivial=False))
+    # the reference table of the reader maps every name to itself: the payloads (value tables, variable assignments)
+    # are copied as they are, a renaming table would have to be applied to them too
+    fd = io["from_dict"]
+    for st in A.walk_no_nested(fd.node):
+        if isinstance(st, ast.Assign) and len(st.targets) == 1 and isinstance(st.targets[0], ast.Subscript) and "ref" in A.unparse(st.targets[0].value):
+            k_, v_ = A.unparse(st.targets[0].slice), A.unparse(st.value)
+            key = "reference table is the identity on names"
+            if k_ == v_:
+                out.append(ok("DISP-12", fd.qualname, key, ctx.where(fd, st), f"{A.unparse(st)[:50]}", nontrivial=False))
+            else:
+                out.append(bad("DISP-12", fd.qualname, key, ctx.where(fd, st), f"'{A.unparse(st)[:60]}' renames blocks on read ({k_} -> {v_}): names, edges and region fields go through the table, the values of branch_value_table do not - after reading, a table names blocks that are not successors"))
     # a block name is compared with a name by equality: `name in <str>` is a substring test
     from .. import types as _T
 
